@@ -263,6 +263,10 @@ Proof. exact parse_fail_invalid_pk. Qed.
 Theorem C14_pairing_identity_exp : forall r a, e_exp r a 0 = 0 /\ e_exp r 0 a = 0.
 Proof. exact e_exp_identity. Qed.
 
+Theorem C14_pairing_negation_exp : forall r a b, 0 < r ->
+  (e_exp r a b + e_exp r a (- b)) mod r = 0 /\ (e_exp r a b + e_exp r (- a) b) mod r = 0.
+Proof. exact e_exp_neg. Qed.
+
 (* ---- the code before the fixes: the property was false (witnesses re-checked by the kernel) ---- *)
 Theorem C14_overlong_refuted :
   exists (hs : g1) (b : bytes), g1_wf hs /\ b <> sig_serialize hs /\
